@@ -70,6 +70,9 @@ type MwCase struct {
 	// session has ended (connections following one another on one middleware
 	// value; state must not survive a connection)
 	LateFrom int            `json:"late_from,omitempty"`
+	// ReplyOK: downstream also answers every EVENT it receives with an OK for
+	// that event: accepting, or refusing with one of the machine-readable prefixes
+	ReplyOK bool `json:"reply_ok,omitempty"`
 	Sched    simrt.Schedule `json:"sched"`
 }
 
@@ -182,6 +185,7 @@ func (e mwEngine) Gen(t *rapid.T, tier string) any {
 		kinds := []string{"maxsubs", "recvunique", "sendunique"}
 		st := MwSpec{Kind: rapid.SampledFrom(kinds).Draw(t, "stateful"), N: rapid.IntRange(1, 3).Draw(t, "n")}
 		c.Stack = []MwSpec{st}
+		c.ReplyOK = st.Kind == "recvunique" && rapid.IntRange(0, 1).Draw(t, "replyok") == 0
 		if st.Kind != "maxsubs" && rapid.IntRange(0, 2).Draw(t, "second") == 0 {
 			// both unique filters in one stack, with different window sizes
 			other := map[string]string{"recvunique": "sendunique", "sendunique": "recvunique"}[st.Kind]
@@ -621,8 +625,11 @@ func (d *mwDownstream) ServeNostr(ctx context.Context, send chan<- mocrelay.Serv
 	s := d.sess[ci]
 	verifsim.NameMe(fmt.Sprintf("down%d", ci))
 	done := make(chan struct{})
-	go d.emitLoop(ctx, ci, s, send, done)
-	defer d.serveEnd(s, done)
+	stop := make(chan struct{})
+	replies := make(chan mocrelay.ServerMsg, 256)
+	go d.emitLoop(ctx, ci, s, send, done, stop, replies)
+	defer d.serveEnd(s, done, stop)
+	nEv := 0
 	for {
 		verifsim.Yield(fmt.Sprintf("down%d", ci))
 		select {
@@ -633,6 +640,14 @@ func (d *mwDownstream) ServeNostr(ctx context.Context, send chan<- mocrelay.Serv
 				return mocrelay.ErrRecvClosed
 			}
 			s.recvd = append(s.recvd, mwRecv{m, d.sim.Stamp(), time.Now()})
+			if ev, ok := m.(*mocrelay.ClientEventMsg); ok && d.c.ReplyOK && ev.Event.Content != mwPanicContent {
+				pre := []string{"", "rate-limited: ", "", "error: ", "duplicate: ", "blocked: "}[nEv%6]
+				nEv++
+				select {
+				case replies <- mocrelay.NewServerOKMsg(ev.Event.ID, pre == "", pre, "verdict of downstream"):
+				default:
+				}
+			}
 			if ev, ok := m.(*mocrelay.ClientEventMsg); ok && ev.Event.Content == mwPanicContent {
 				// the wrapped handler crashes; whoever serves the connection recovers
 				// (as net/http does per connection)
@@ -645,17 +660,43 @@ func (d *mwDownstream) ServeNostr(ctx context.Context, send chan<- mocrelay.Serv
 }
 
 //go:norace
-func (d *mwDownstream) serveEnd(s *mwSession, done chan struct{}) {
+func (d *mwDownstream) serveEnd(s *mwSession, done, stop chan struct{}) {
+	close(stop)
 	<-done
 	s.ended = true
 }
 
 //go:norace
-func (d *mwDownstream) emitLoop(ctx context.Context, ci int, s *mwSession, send chan<- mocrelay.ServerMsg, done chan struct{}) {
+func (d *mwDownstream) emitOne(ctx context.Context, s *mwSession, send chan<- mocrelay.ServerMsg, stop chan struct{}, m mocrelay.ServerMsg) bool {
+	r := &mwDownRec{msg: m, start: d.sim.Stamp()}
+	s.emits = append(s.emits, r)
+	select {
+	case send <- m:
+		r.done = d.sim.Stamp()
+		r.doneT = time.Now()
+		return true
+	case <-ctx.Done():
+		return false
+	case <-stop:
+		return false
+	}
+}
+
+//go:norace
+func (d *mwDownstream) emitLoop(ctx context.Context, ci int, s *mwSession, send chan<- mocrelay.ServerMsg, done, stop chan struct{}, replies chan mocrelay.ServerMsg) {
 	defer close(done)
-	verifsim.NameMe(fmt.Sprintf("down%d.em", ci))
+	name := fmt.Sprintf("down%d.em", ci)
+	verifsim.NameMe(name)
 	for _, e := range d.c.Clients[ci].Down {
-		verifsim.Yield(fmt.Sprintf("down%d.em", ci))
+		verifsim.Yield(name)
+		// replies to received events go out between the scripted emissions ...
+		select {
+		case m := <-replies:
+			if !d.emitOne(ctx, s, send, stop, m) {
+				return
+			}
+		default:
+		}
 		var m mocrelay.ServerMsg
 		switch e.T {
 		case "SLEEP":
@@ -663,6 +704,8 @@ func (d *mwDownstream) emitLoop(ctx context.Context, ci int, s *mwSession, send 
 			select {
 			case <-time.After(500 * time.Millisecond):
 			case <-ctx.Done():
+				return
+			case <-stop:
 				return
 			}
 			continue
@@ -683,13 +726,21 @@ func (d *mwDownstream) emitLoop(ctx context.Context, ci int, s *mwSession, send 
 		case "AUTH":
 			m = &mocrelay.ServerAuthMsg{Challenge: "challenge"}
 		}
-		r := &mwDownRec{msg: m, start: d.sim.Stamp()}
-		s.emits = append(s.emits, r)
+		if !d.emitOne(ctx, s, send, stop, m) {
+			return
+		}
+	}
+	// ... and, once the script is through, as they come
+	for d.c.ReplyOK {
+		verifsim.Yield(name)
 		select {
-		case send <- m:
-			r.done = d.sim.Stamp()
-			r.doneT = time.Now()
+		case m := <-replies:
+			if !d.emitOne(ctx, s, send, stop, m) {
+				return
+			}
 		case <-ctx.Done():
+			return
+		case <-stop:
 			return
 		}
 	}
